@@ -56,6 +56,9 @@ def build(packages=None, timeout=3600):
         cmd = ["cargo", "build", "--release", "--offline"]
         for p in packages or []:
             cmd += ["-p", p]
+        # development aid: build only the named driver binaries (several people editing drivers of one package)
+        for b in [x for x in os.environ.get("VERIF_BUILD_BINS", "").split(",") if x]:
+            cmd += ["--bin", b]
         env = dict(os.environ)
         env["CARGO_NET_OFFLINE"] = "true"
         t0 = time.time()
